@@ -1,4 +1,4 @@
-(* GENERATED on every run by harness/props/c02.py from /tmp/seed_C02_5/bert_e/lib/git.py - do not edit *)
+(* GENERATED on every run by harness/props/c02.py from /repo/bert_e/lib/git.py - do not edit *)
 (* Repository.push     : git push --atomic --set-upstream origin *)
 Definition named_push_atomic : bool := true.
 (* Repository.push_all : git push --all --atomic | git push --atomic origin 'refs/heads/*:refs/heads/*' *)
